@@ -366,6 +366,10 @@ func Main[C any](t *testing.T, spec Spec[C]) {
 			r.open = append(r.open, kf)
 		}
 	}
+	if fuzzF != nil { // this process is a native fuzz coordinator/worker of the package (see fuzz.go)
+		fuzzMode(r)
+		return
+	}
 	defer r.writeEvidence()
 
 	// 1. explicit replay: judge one saved case without rapid.
@@ -516,6 +520,11 @@ func Main[C any](t *testing.T, spec Spec[C]) {
 			rt.Fatalf("%s: %s", un[0].Clause, un[0].Detail)
 		}
 	})
+
+	// 5. coverage-guided search over the same generator and oracle (thorough tier, shard 0; see fuzz.go).
+	if !t.Failed() && lastFail == nil {
+		nativeFuzz(t, r)
+	}
 }
 
 func (r *runner[C]) writeEvidence() {
